@@ -37,11 +37,14 @@ let kind_of_name (s : string) : kind =
   match !r with Some k -> k | None -> failwith ("unknown fee kind " ^ s)
 let kind_name (k : kind) : string = kind_names.(int_of_n (kind_index k))
 
-let class_name = function
+let rec class_name = function
   | ENonce -> "nonce" | EAuth -> "auth" | EOverflow -> "overflow" | EDisabled -> "disabled"
   | EExists -> "exists" | EMissing -> "missing" | EFeeAsset -> "feeasset" | EFunds -> "funds"
   | EPrefix -> "prefix" | EBridge -> "bridge" | EDecode -> "decode" | EChainId -> "chainid"
   | EOther -> "other"
+  | ENonFatal e -> class_name e
+(* AbciErrorCode::TRANSACTION_FAILED_EXECUTION: the result code of a tx that failed non-fatally *)
+let nonfatal_code = 10
 
 (* ---- naming of entities ---- *)
 let strip_prefix (p : string) (s : string) : string option =
@@ -172,6 +175,7 @@ let parse_action (toks : string list) : action =
         | Some a -> ARelayer (true, acct a)
         | None -> ARelayer (false, acct (kv rest "remove")))
      | "valupdate" -> AValUpdate (acct (kv rest "key"), num rest "power")
+     | "ibcrelay" -> AIbcRelayFailing (num rest "bad")
      | other -> failwith ("unknown action " ^ other))
 
 let split_actions (toks : string list) : string list list =
@@ -364,7 +368,8 @@ let exec_lines (id : string) (s : state) (c : checked_tx) : state * bool =
     List.iter (fun d -> emit (Printf.sprintf "dep %s %s" id (show_deposit d))) (by_rollup newdeps);
     (s', true)
   | (s', OutErr e) ->
-    emit (Printf.sprintf "exec %s err=%s unchanged=true" id (class_name e));
+    emit (Printf.sprintf "exec %s err=%s unchanged=true%s" id (class_name e)
+            (if is_nonfatal e then " included=1" else ""));
     (s', false)
 
 let define_tx (id : string) (signer : string) (nonce : string) (rest : string list) : unit =
@@ -431,6 +436,9 @@ let run ic oc =
        let (ai, trace, _, _) = asset_info k in
        set_cur (op_mint (cur ()) (acct a) ai (n_of_string v) trace);
        emit "mint ok"
+     | ["setnonce"; a; v] ->
+       set_cur (op_setnonce (cur ()) (acct a) (n_of_string v));
+       emit "setnonce ok"
      | ["allowfee"; k] ->
        let (ai, trace, _, _) = asset_info k in
        set_cur (op_allowfee (cur ()) ai trace);
@@ -483,6 +491,8 @@ let run ic oc =
            | `Checked c ->
              (match exec_tx !st c with
               | (s', OutOk _) -> st := s'; (Printf.sprintf "txres %s code=0" id, false)
+              | (_, OutErr e) when is_nonfatal e ->
+                (Printf.sprintf "txres %s code=%d" id nonfatal_code, false)
               | (_, OutErr e) -> (Printf.sprintf "txres %s dropped=%s" id (class_name e), false)))
            entries in
        (match end_block !st with
